@@ -161,10 +161,11 @@ def main():
         if fn == '<built-in>' or fn == '<command line>': return None
         if not os.path.exists(fn):
             # a name given by a #line directive of the input denotes the input
-            if re.search(r'#\s*(?:line\s+)?\d+\s+"%s"' % re.escape(fn), text) or any(re.search(r'#\s*(?:line\s+)?\d+\s+"%s"' % re.escape(fn), open(h, errors='replace').read()) for h in glob.glob(os.path.join(os.path.dirname(chibi), 'test', '*.h'))): return None
+            if re.search(r'#\s*(?:line\s+)?\d+\s*"%s"' % re.escape(fn), text) or any(re.search(r'#\s*(?:line\s+)?\d+\s*"%s"' % re.escape(fn), open(h, errors='replace').read()) for h in glob.glob(os.path.join(os.path.dirname(chibi), 'test', '*.h'))): return None
             return 'diagnostic names a file that does not exist: ' + fn
         raw = open(fn, 'rb').read()
         nlines = raw.count(b'\n') + len(re.findall(rb'\r(?!\n)', raw)) + 1      # physical lines: LF, CR LF, lone CR (C18)
+        if re.search(r'(?m)^[ \t]*#[ \t]*(?:line\b|\d)', text): return None if ln >= 1 else 'diagnostic names line %d' % ln      # a #line directive / line marker in the input: the presumed number (C18) need not be a physical line
         if not 1 <= ln <= nlines + 1: return 'diagnostic names line %d of %s, which has %d lines' % (ln, os.path.basename(fn), nlines)
         return None
 
@@ -218,7 +219,7 @@ def main():
         if verdict:
             run.violation(dict(kind='bad-answer', what=verdict, input=text[:4000], exit=rc, stderr=err[:400],
                                input_bytes=len(text), family=kind, how='chibicc -cc1 -I<test> -I<include> ... -cc1-input <file> -cc1-output <file>.s <file> (the front end run directly), then `as` on the output'),
-                          dict(area='robustness', construct=re.sub(r'[^a-z ]', '', verdict.lower())[:30].strip()))
+                          dict(area='robustness', construct=re.sub(r'[^a-z ]', '', verdict.lower())[:30].strip(), includes_itself=bool(re.search(r'#[ \t]*include[ \t]+__FILE__', text))))
         if lex and lex[0] != lex[1]:
             run.corr_broken.append('lexer outcome class of %s: model %s, chibicc %s' % (os.path.basename(f), lex[0], lex[1])); write_replay(PID, 'lex_' + os.path.basename(f), text)
         if kind.startswith('scale') and rc != 0 and not verdict:
